@@ -538,6 +538,60 @@ def m_contracted(I, args, kw):
     return G
 
 
+@model(nx.set_node_attributes)
+def m_set_node_attributes(I, args, kw):
+    if _any_arg(args, kw):
+        return _havoc_or_unsupported(I, 'networkx.set_node_attributes()', 'set_node_attributes on an unknown value')
+    G, vals = args[0], args[1]
+    name = kw.get('name', args[2] if len(args) > 2 else None)
+    if not isinstance(G, NXGraph):
+        raise Unsupported('set_node_attributes on a non-graph')
+    if name is not None and not isinstance(vals, PDict):
+        for n in G.node.e:
+            I.dict_set(G.node.e[n][1], name, vals)
+        return None
+    if name is not None and isinstance(vals, PDict):
+        for n in I.dict_keys_now(vals):
+            if n in G.node.e:
+                I.dict_set(G.node.e[n][1], name, vals.e[n][1])
+        return None
+    raise Unsupported('set_node_attributes with a dict of dicts')
+
+
+@model(nx.shortest_simple_paths)
+def m_shortest_simple_paths(I, args, kw):
+    if _any_arg(args, kw):
+        return _havoc_or_unsupported(I, 'networkx.shortest_simple_paths()', 'shortest_simple_paths on an unknown value')
+    G, src, tgt = args[0], args[1], args[2]
+    if kw:
+        raise Unsupported('shortest_simple_paths options')
+    if src not in G.node.e or tgt not in G.node.e:
+        _raise(I, nx.NodeNotFound, 'node not in graph')
+    sk = G.skeleton()
+
+    class Lazy:
+        """a generator: NetworkXNoPath is raised on the first next(), not at creation"""
+        def __pyvc_iter__(self, I2):
+            try:
+                paths = list(nx.shortest_simple_paths(sk, src, tgt))
+            except nx.NetworkXNoPath as e:
+                _raise(I2, nx.NetworkXNoPath, str(e))
+            for p in paths:
+                yield PList(p)
+    return Lazy()
+
+
+@model(nx.has_path)
+def m_has_path(I, args, kw):
+    if _any_arg(args, kw):
+        return _havoc_or_unsupported(I, 'networkx.has_path()', 'has_path on an unknown value')
+    G, src, tgt = args[0], args[1], args[2]
+    try:
+        return nx.has_path(G.skeleton(), src, tgt)
+    except nx.NodeNotFound as e:
+        _raise(I, nx.NodeNotFound, str(e))
+
+
 # ------------------------------------------------------------------------------------------- networkx_query
 def eval_query(I, attrs, q):
     """networkx_query semantics (read from the installed source): {'eq': [key, value]} holds iff key is present in the
